@@ -8,6 +8,13 @@ transforms:
   guard        a trailing `if c: BODY` of a function or loop body -> `if not c: return|continue` + BODY
   rename       every local variable v of every function (not parameters) -> v_ (closures included)
   kwargs       positional arguments of calls to same-module functions -> keywords (where the signature is known)
+  demorgan     `a and b` in test position -> `not (not a or not b)` (and dually)
+  comp-loop    `x = [E for v in IT if C]` -> `x = []` + `for`/`if`/`append`
+  ifexp-stmt   `x = A if C else B` -> if/else statement
+  else-after-exit  `if C: ...; return` + REST -> the REST moves into an `else:`
+  chain-cmp    `a <= b < c` -> `a <= b and b < c`
+  swap-mul     operands of `*`, `&`, `|` swapped (call-free operands)
+  temps        call-valued arguments hoisted into temporaries
 Nothing under /repo or /verif is written: the caller gives a scratch copy.
 """
 import ast
@@ -147,7 +154,191 @@ class Kwargs(ast.NodeTransformer):
         return n
 
 
-TRANSFORMS = ("invert-if", "flip-cmp", "guard", "rename", "kwargs")
+class DeMorgan(ast.NodeTransformer):
+    """In test position only (where only the truth value matters): `a and b` -> `not (not a or not b)`, `a or b` -> `not (not a and not b)`."""
+    def _test(self, t):
+        if isinstance(t, ast.BoolOp):
+            other = ast.Or() if isinstance(t.op, ast.And) else ast.And()
+            return ast.UnaryOp(op=ast.Not(), operand=ast.BoolOp(op=other, values=[ast.UnaryOp(op=ast.Not(), operand=v) for v in t.values]))
+        return t
+
+    def visit_If(self, n):
+        self.generic_visit(n)
+        n.test = self._test(n.test)
+        return n
+
+    def visit_While(self, n):
+        self.generic_visit(n)
+        n.test = self._test(n.test)
+        return n
+
+    def visit_IfExp(self, n):
+        self.generic_visit(n)
+        n.test = self._test(n.test)
+        return n
+
+
+class _Blocks(ast.NodeTransformer):
+    """Base: rewrite every statement list of function bodies through self.block(stmts)."""
+    def block(self, stmts):
+        return stmts
+
+    def generic_visit(self, n):
+        super().generic_visit(n)
+        if self._depth > 0:
+            for fld in ("body", "orelse", "finalbody"):
+                v = getattr(n, fld, None)
+                if isinstance(v, list) and v and isinstance(v[0], ast.stmt):
+                    setattr(n, fld, self.block(v))
+        return n
+
+    _depth = 0
+
+    def visit_FunctionDef(self, n):
+        self._depth += 1
+        try:
+            return self.generic_visit(n)
+        finally:
+            self._depth -= 1
+
+
+class CompLoop(_Blocks):
+    """`x = [E for v in IT if C]` (one generator, Name target and Name loop variable) -> `x = []` + loop with append. The loop variable
+    gets a fresh name because a comprehension variable does not leak into the function."""
+    counter = 0
+
+    def block(self, stmts):
+        out = []
+        for s in stmts:
+            if isinstance(s, ast.Assign) and len(s.targets) == 1 and isinstance(s.targets[0], ast.Name) and isinstance(s.value, ast.ListComp) \
+                    and len(s.value.generators) == 1 and isinstance(s.value.generators[0].target, ast.Name) and not s.value.generators[0].is_async:
+                g = s.value.generators[0]
+                tgt = s.targets[0].id
+                names = {x.id for x in ast.walk(s.value) if isinstance(x, ast.Name)}
+                if tgt in names or any(isinstance(x, (ast.Lambda, ast.ListComp, ast.GeneratorExp, ast.SetComp, ast.DictComp, ast.NamedExpr, ast.Yield, ast.Await))
+                                       for x in ast.walk(s.value) if x is not s.value):
+                    out.append(s)
+                    continue
+                CompLoop.counter += 1
+                fresh = "%s_c%d" % (g.target.id, CompLoop.counter)
+
+                class R(ast.NodeTransformer):
+                    def visit_Name(self, x):
+                        return ast.copy_location(ast.Name(id=fresh, ctx=x.ctx), x) if x.id == g.target.id else x
+                elt = R().visit(s.value.elt)
+                conds = [R().visit(c) for c in g.ifs]
+                body = [ast.Expr(value=ast.Call(func=ast.Attribute(value=ast.Name(id=tgt, ctx=ast.Load()), attr="append", ctx=ast.Load()), args=[elt], keywords=[]))]
+                for c in reversed(conds):
+                    body = [ast.If(test=c, body=body, orelse=[])]
+                out.append(ast.Assign(targets=[ast.Name(id=tgt, ctx=ast.Store())], value=ast.List(elts=[], ctx=ast.Load())))
+                out.append(ast.For(target=ast.Name(id=fresh, ctx=ast.Store()), iter=g.iter, body=body, orelse=[]))
+            else:
+                out.append(s)
+        return out
+
+
+class IfExpStmt(_Blocks):
+    """`x = A if C else B` -> `if C: x = A` / `else: x = B` (Name target)."""
+    def block(self, stmts):
+        out = []
+        for s in stmts:
+            if isinstance(s, ast.Assign) and len(s.targets) == 1 and isinstance(s.targets[0], ast.Name) and isinstance(s.value, ast.IfExp):
+                t = s.targets[0].id
+                out.append(ast.If(test=s.value.test, body=[ast.Assign(targets=[ast.Name(id=t, ctx=ast.Store())], value=s.value.body)],
+                                  orelse=[ast.Assign(targets=[ast.Name(id=t, ctx=ast.Store())], value=s.value.orelse)]))
+            else:
+                out.append(s)
+        return out
+
+
+class ElseAfterExit(_Blocks):
+    """`if C: ...; return` followed by REST -> `if C: ...; return` / `else: REST` (the inverse of a guard clause)."""
+    def block(self, stmts):
+        for i, s in enumerate(stmts[:-1]):
+            if isinstance(s, ast.If) and not s.orelse and isinstance(s.body[-1], (ast.Return, ast.Raise, ast.Continue, ast.Break)):
+                rest = stmts[i + 1:]
+                # a nested def / global statement in the rest is left alone
+                if any(isinstance(x, (ast.FunctionDef, ast.ClassDef, ast.Global, ast.Nonlocal)) for x in rest):
+                    break
+                s.orelse = self.block(rest)
+                return stmts[:i + 1]
+        return stmts
+
+
+class ChainCmp(ast.NodeTransformer):
+    """`a <= b < c` -> `a <= b and b < c` when the middle operands are names, attributes of names or constants."""
+    def visit_Compare(self, n):
+        self.generic_visit(n)
+        if len(n.ops) < 2:
+            return n
+        def simple(x):
+            return isinstance(x, (ast.Name, ast.Constant)) or (isinstance(x, ast.Attribute) and isinstance(x.value, ast.Name))
+        if not all(simple(c) for c in n.comparators[:-1]):
+            return n
+        parts, left = [], n.left
+        for op, c in zip(n.ops, n.comparators):
+            parts.append(ast.Compare(left=left, ops=[op], comparators=[c]))
+            left = c
+        return ast.BoolOp(op=ast.And(), values=parts)
+
+
+class SwapMul(ast.NodeTransformer):
+    """`a * b` -> `b * a`, `a & b` -> `b & a`, `a | b` -> `b | a` when both operands are free of calls (no evaluation-order effect)."""
+    def visit_BinOp(self, n):
+        self.generic_visit(n)
+        if isinstance(n.op, (ast.Mult, ast.BitAnd, ast.BitOr)) and not any(isinstance(x, (ast.Call, ast.Yield, ast.Await, ast.NamedExpr)) for x in ast.walk(n)):
+            n.left, n.right = n.right, n.left
+        return n
+
+
+class Temps(_Blocks):
+    """Hoist call-valued arguments of the call in `x = f(..)`, `return f(..)` and `f(..)` statements into temporaries, left to right."""
+    counter = 0
+
+    def block(self, stmts):
+        out = []
+        for s in stmts:
+            call = None
+            if isinstance(s, (ast.Assign, ast.Return, ast.Expr)) and isinstance(s.value, ast.Call):
+                call = s.value
+            if call is None or not isinstance(call.func, (ast.Name, ast.Attribute)) or any(isinstance(a, ast.Starred) for a in call.args) \
+                    or any(k.arg is None for k in call.keywords):
+                out.append(s)
+                continue
+            # left to right: stop at the first argument that is not hoisted but could observe an effect (anything but names/constants)
+            def pure(a):
+                return isinstance(a, (ast.Name, ast.Constant)) or (isinstance(a, ast.UnaryOp) and isinstance(a.operand, ast.Constant))
+            args = list(call.args) + [k.value for k in call.keywords]
+            new = []
+            ok = True
+            for a in args:
+                if pure(a):
+                    new.append(a)
+                elif ok and isinstance(a, ast.Call) and not any(isinstance(x, (ast.Yield, ast.Await, ast.NamedExpr, ast.Lambda)) for x in ast.walk(a)):
+                    Temps.counter += 1
+                    nm = "tmp_h%d" % Temps.counter
+                    out.append(ast.Assign(targets=[ast.Name(id=nm, ctx=ast.Store())], value=a))
+                    new.append(ast.Name(id=nm, ctx=ast.Load()))
+                else:
+                    ok = False
+                    new.append(a)
+            call.args = new[:len(call.args)]
+            for k, v in zip(call.keywords, new[len(call.args):]):
+                k.value = v
+            out.append(s)
+        return out
+
+
+
+TRANSFORMS = ("invert-if", "flip-cmp", "guard", "rename", "kwargs", "demorgan", "comp-loop", "ifexp-stmt", "else-after-exit", "chain-cmp", "swap-mul", "temps")
+
+
+# combinations replayed by the self-test besides each single transform
+COMBOS = (
+    ("invert-if", "flip-cmp", "rename", "kwargs", "demorgan", "comp-loop", "ifexp-stmt", "chain-cmp", "swap-mul", "temps", "guard"),
+    ("else-after-exit", "invert-if", "demorgan", "rename"),
+    ("temps", "rename", "kwargs", "flip-cmp"),
+)
 
 
 def rewrite_source(src, names):
@@ -169,6 +360,20 @@ def rewrite_source(src, names):
                     if isinstance(n, ast.FunctionDef) and not n.args.vararg and not n.args.kwarg and not n.args.posonlyargs and not n.decorator_list:
                         sigs[n.name] = [a.arg for a in n.args.args]
                 tree = Kwargs(sigs).visit(tree)
+            elif t == "demorgan":
+                tree = DeMorgan().visit(tree)
+            elif t == "comp-loop":
+                tree = CompLoop().visit(tree)
+            elif t == "ifexp-stmt":
+                tree = IfExpStmt().visit(tree)
+            elif t == "else-after-exit":
+                tree = ElseAfterExit().visit(tree)
+            elif t == "chain-cmp":
+                tree = ChainCmp().visit(tree)
+            elif t == "swap-mul":
+                tree = SwapMul().visit(tree)
+            elif t == "temps":
+                tree = Temps().visit(tree)
             else:
                 raise SystemExit("unknown transform " + t)
     ast.fix_missing_locations(tree)
